@@ -600,6 +600,38 @@ def check_in_descriptions(run):
                 reported += 1
 
 
+def check_value_clause_context(run):
+    """The clause that words the value matcher of a has_entry does not depend on where the has_entry sits: under not_, inside
+    has_item / has_all_items / another has_entry, it is " that " + the value matcher's own (conjugated, positive) wording."""
+    n = 150 if run.tier == "quick" else 4000
+    for i in range(n):
+        vm = G.gen_leaf(run.rng)
+        if run.rng.random() < 0.3:
+            vm = ("not_", vm)
+        k = run.rng.choice(["a", "b", 0, ["a", 0]])
+        inner = ("has_entry", k, vm)
+        ctx = run.rng.choice(["plain", "not", "item_not", "all_not", "entry_not", "item_not_not"])
+        e = {"plain": inner, "not": ("not_", inner), "item_not": ("has_item", ("not_", inner)),
+             "all_not": ("has_all_items", ("not_", inner)), "entry_not": ("has_entry", "z", ("not_", inner)),
+             "item_not_not": ("has_item", ("not_", ("not_", inner)))}[ctx]
+        try:
+            whole = I.describe(G.build(e))
+            clause = " that " + I.describe(G.build(vm), conjugate=True)
+        except Exception as ex:      # noqa
+            run.tie_broken("build_description of a generated expression", detail="%r: %s" % (e, ex))
+            continue
+        run.evaluations += 1
+        run.count("value_clause_context:" + ctx)
+        if "\n" in whole or "\n" in clause:
+            continue
+        if not whole.endswith(clause):
+            run.violation("oracle:value-clause-depends-on-context",
+                          "the value matcher of %r is worded %r on its own (conjugated) but the sentence of %r is %r" % (
+                              inner, clause[6:], e, whole),
+                          {"kind": "value-clause", "expr": repr(e), "value_matcher": repr(vm), "description": whole,
+                           "expected_suffix": clause})
+
+
 def check(run):
     run.trusted += [
         "harness/tables_matchers.py: the wording tables and the recognised shapes of every build_description, of "
@@ -822,6 +854,7 @@ def check(run):
                     h, e, s = lcases[(k - nd) * 450 + idx]
                     run.tie_broken("log_description (model) = sentence recorded by check_that", case={"expr": repr(e), "hint": h}, impl=s)
     check_in_descriptions(run)
+    check_value_clause_context(run)
     run.coverage["rule"] = (
         "correspondence: seeded random expressions over all modelled constructors incl. wrappers (depth 0..4) x random transformer "
         "settings, description string and transformer state afterwards compared with Model.Describe inside Coq; sentences "
